@@ -67,7 +67,8 @@ Payloads(self) == { << Leaf("y") >>,
                     << Uses(IF self = "b" THEN "" ELSE "b", "bg") >>,
                     << Leaf("z"), Stmt("container", "w", << Leaf("wl") >>) >>,
                     << Leaf("l") >> }
-ChainPayloads == { << Leaf("y") >>, XPayload, << Leaf("l") >> }
+\* (the last one: the augment's body is nothing but a uses of a grouping that a THIRD module defines, when c writes it)
+ChainPayloads == { << Leaf("y") >>, XPayload, << Leaf("l") >>, << Uses("b", "bg") >> }
 Aug(t, pl) == Stmt("augment", t, pl)
 ImpA == [x \in {"a"} |-> "a"]
 ImpAB == [x \in {"a", "b"} |-> x]
